@@ -72,6 +72,9 @@ pub fn gen_and_run<G: AffineRepr>(curve: &str, ci: u64, modulus: &str, seed: u64
         let mut t = Transcript::new(b"ped");
         let mut prover = Prover::new(&pc, &mut t);
         let (pp, _var) = prover.commit(v, r);
+        // further commitments on the SAME prover: same blinding with another value, the first opening again, zero blinding twice
+        let seq: Vec<(F<G>, F<G>)> = vec![(v2, r), (v, r), (v2, F::<G>::from(0u64)), (k, F::<G>::from(0u64)), (v2, r)];
+        let seq_ok = seq.iter().all(|(a, b)| prover.commit(*a, *b).0 == G::Group::msm(&[pc.B, pc.B_blinding], &[*a, *b]).unwrap().into_affine());
         // independent path: variable-base MSM
         let indep = G::Group::msm(&[pc.B, pc.B_blinding], &[v, r]).unwrap().into_affine();
         // laws on the real points
@@ -81,7 +84,7 @@ pub fn gen_and_run<G: AffineRepr>(curve: &str, ci: u64, modulus: &str, seed: u64
         let zero_ok = pc.commit(F::<G>::from(0u64), F::<G>::from(0u64)).is_zero();
         let scale_ok = p1.mul_bigint(k.into_bigint()).into_affine() == pc.commit(k * v, k * r);
         let mut obs = String::new();
-        let _ = writeln!(obs, "{} 1 {} {} {} {} {}", id, (p1 == indep) as u8, (pp == p1) as u8, hom_ok as u8, zero_ok as u8, scale_ok as u8);
+        let _ = writeln!(obs, "{} 1 {} {} {} {} {} {}", id, (p1 == indep) as u8, (pp == p1) as u8, hom_ok as u8, zero_ok as u8, scale_ok as u8, seq_ok as u8);
         let coq = format!("Eval vm_compute in run_ped {}%Z {}%Z {}%Z {}%Z {}%Z {}%Z.\n", modulus, fz(&v), fz(&r), fz(&v2), fz(&r2), fz(&k));
         let summary = format!("{} {} tag=ped-{} prover=0 basis=1,0\n", id, curve, if c % 3 == 0 { "default" } else { "random-bases" });
         // model coefficient vectors re-materialised over these bases
